@@ -174,6 +174,47 @@ def program_cases(rng, n, cycles):
     return cases
 
 
+def irq_program_cases(rng, n, cycles):
+    """interrupts (timer, at a period that drifts against the loop) dispatched at every possible boundary of a loop made of
+    taken and not-taken conditional calls, jumps and returns"""
+    cases = []
+    for i in range(n):
+        body = []
+        sub = 0xc080
+        for _ in range(rng.randrange(4, 10)):
+            k = rng.randrange(9)
+            if k == 0:
+                body += [0xaf, 0xcc, sub & 255, sub >> 8]            # XOR A ; CALL Z (taken)
+            elif k == 1:
+                body += [0xaf, 0xc4, sub & 255, sub >> 8]            # CALL NZ (not taken)
+            elif k == 2:
+                body += [0x37, 0xdc, sub & 255, sub >> 8]            # SCF ; CALL C (taken)
+            elif k == 3:
+                body += [0xaf, 0x28, 0x00]                           # JR Z,+0 (taken)
+            elif k == 4:
+                body += [0xaf, 0x20, 0x00]                           # JR NZ (not taken)
+            elif k == 5:
+                body += [0x37, 0x30, 0x00, 0x38, 0x00]               # JR NC (not taken) ; JR C (taken)
+            elif k == 6:
+                body += [0x3c, 0x00]
+            elif k == 7:
+                body += [0x76]                                       # HALT (woken by the timer)
+            else:
+                body += [0xcd, sub & 255, sub >> 8]                  # CALL
+        pre = [0x31, 0xff, 0xdf, 0x3e, 0x04, 0xe0, 0xff, 0x3e, rng.randrange(0xe0, 0x100), 0xe0, 0x06, 0x3e, rng.choice([5, 5, 6, 7]), 0xe0, 0x07, 0xfb]
+        prog = pre + body
+        back = len(pre) - (len(prog) + 2)
+        prog += [0x18, back & 255]
+        lines = ['mayexit', 'sys.cpurom', 'safe.ok']
+        for j, b in enumerate(prog):
+            lines.append('sys.w %d %d' % (0xc000 + j, b))
+        for j, b in enumerate([0xaf, 0xc8, 0xc9] if i % 2 else [0x37, 0xd0, 0xd8, 0xc9]):   # XOR A; RET Z  |  SCF; RET NC; RET C
+            lines.append('sys.w %d %d' % (sub + j, b))
+        lines += ['sys.set 1 2 3 4 5 0 6 7 57343 49152', 'sys.cyc %d' % cycles, 'sys.get', 'sys.rr 0xDFE0 0xDFFF']
+        cases.append(('irqprog%d' % i, lines))
+    return cases
+
+
 def random_byte_programs(rng, n, cycles):
     cases = []
     for i in range(n):
@@ -279,6 +320,7 @@ def generate(rng, tier):
     add('bus_histories', bus_histories(rng, 2500 if t else 150))
     add('edges', edge_cases(rng, 64 if t else 16))
     add('programs', program_cases(rng, 1500 if t else 110, 6000 if t else 1800))
+    add('irq_programs', irq_program_cases(rng, 300 if t else 24, 6000 if t else 2500))
     add('random_bytes', random_byte_programs(rng, 600 if t else 40, 3000 if t else 1000))
     add('dma_pages', dma_cases(rng, range(256) if t else list(range(0, 256, 5)) + [0xfe, 0xff, 0xdf, 0xe0, 0xf1, 0xf2]))
     add('wave_ram', wave_cases(rng, 600 if t else 60))
